@@ -4,8 +4,8 @@
     Model: Model/SigModel.v (Task.arg_opts / get_arguments) and
     Model/SigCtxModel.v (ParserContext.add_arg tables, as_kwargs, bind).
     Guards (Spec/C09Spec.v): [wf_sig] = distinct ASCII identifiers whose dashed
-    forms are pairwise distinct; [all_have_core], [no_steal], [no_inverse_clash]
-    delimit the three known findings F-C09b/c/d. *)
+    forms are pairwise distinct; [all_have_core], [no_inverse_clash] delimit the
+    two known findings F-C09b/d (F-C09c was repaired by d208a4d). *)
 From InvokeVerif Require Import Model.SigCtxModel Spec.C09Spec
      Proofs.C09_facts Proofs.C09_sig Proofs.C09_ctx Proofs.C09_wf Proofs.C09_main
      Proofs.C09_order Proofs.C09_bounded Proofs.C09_flagship.
@@ -53,21 +53,30 @@ Theorem C09_flags_distinct :
   forall s o, wf_sig s = true -> sig_cli s = Ok o -> NoDup (all_spellings o).
 Proof. exact flags_distinct_thm. Qed.
 
-(** A well-formed signature is accepted.  Missing for full strength: names
-    like [_a]/[b_] after a parameter whose auto short flag is that letter. *)
-Theorem C09_accepted_partial :
-  forall s, wf_sig s = true -> no_steal s = true -> exists o, sig_cli s = Ok o.
+(** Every well-formed signature is accepted -- full strength under [wf_sig]
+    since d208a4d (taken_names also holds the dashed spellings). *)
+Theorem C09_accepted :
+  forall s, wf_sig s = true -> exists o, sig_cli s = Ok o.
 Proof. exact accepts. Qed.
 
-(** F-C09c: (ab, _a) is well-formed yet refused with ValueError. *)
-Theorem C09_accepted_refuted :
-  wf_sig sig_steal = true /\ all_have_core sig_steal = true /\ sig_cli sig_steal = Err EValue.
-Proof. exact steal_refutes. Qed.
+(** The former witness of F-C09c now parses to a correct CLI. *)
+Example C09_accepted_former_witness :
+  wf_sig sig_steal = true /\
+  exists o, sig_cli sig_steal = Ok o /\ all_spellings o = ["--ab"; "-a"; "-b"] /\
+            spec_ok sig_steal (Ok o) = true.
+Proof. exact steal_fixed. Qed.
+
+(** Historical (F-C09c, fixed by d208a4d): with taken_names seeded by the
+    Python spellings only, (ab, _a) was refused with ValueError. *)
+Theorem C09_accepted_historical_refuted :
+  wf_sig sig_steal = true /\ all_have_core sig_steal = true /\
+  add_args empty_ctx (get_arguments_before_d208a4d sig_steal) = Err EValue.
+Proof. exact steal_historical_refutes. Qed.
 
 (** F-C09d: with the inverse forms counted, flag names are not distinct:
     (a=True, no_a=False) has "--no-a" twice. *)
 Theorem C09_flags_distinct_with_inverse_refuted :
-  wf_sig sig_inverse = true /\ all_have_core sig_inverse = true /\ no_steal sig_inverse = true /\
+  wf_sig sig_inverse = true /\ all_have_core sig_inverse = true /\
   exists o, sig_cli sig_inverse = Ok o /\ flags_distinct o = false /\
             In "--no-a" (map fst (o_flags o)) /\ In "--no-a" (map fst (o_inverse o)).
 Proof. exact inverse_refutes. Qed.
@@ -133,8 +142,8 @@ Proof. exact kwargs_values. Qed.
 
 (** Flagship: on the guarded region the model satisfies the complete executable
     specification.  [full_guard] = [wf_sig] (distinct identifiers, distinct
-    dashed forms) minus the three known findings ([all_have_core]: F-C09b,
-    [no_steal]: F-C09c, [no_inverse_clash]: F-C09d), and explicit positional=
+    dashed forms) minus the two known findings ([all_have_core]: F-C09b,
+    [no_inverse_clash]: F-C09d), and explicit positional=
     lists being duplicate-free lists of parameter names.  Missing for full
     strength: exactly those regions (refuted above, resp. swept below). *)
 Theorem C09_spec_partial :
